@@ -82,15 +82,29 @@ def fans(dims):
 def targets():
     ts = []
     # ---- calculate_gain
-    for nl, expect in [("linear", 1), ("conv1d", 1), ("conv2d", 1), ("sigmoid", 1), ("tanh", 5.0 / 3), ("relu", math.sqrt(2.0)), ("selu", 3.0 / 4)]:
-        def setup(ex, nl=nl):
-            return State(), [nl, None], {}
+    for nl, expect, with_param in [(n_, e_, w_) for (n_, e_) in [("linear", 1), ("conv1d", 1), ("conv2d", 1), ("sigmoid", 1), ("tanh", 5.0 / 3), ("relu", math.sqrt(2.0)), ("selu", 3.0 / 4)]
+                                   for w_ in (False, True)]:
+        def setup(ex, nl=nl, with_param=with_param):
+            # PyTorch's table ignores `param` for every nonlinearity except leaky_relu: the gain must not depend on it
+            return State(), [nl, z3.Real("param") if with_param else None], {}
 
         def ens(ctx, s, out, expect=expect):
             if isinstance(out, Raised):
                 return [("known_nonlinearity_accepted", False)]
             return [("gain_value", out.value == expect if not z3.is_expr(out.value) else out.value == to_z3(float(expect)))]
-        ts.append(Target(NAME + "calculate_gain[%s]" % nl, INIT, "calculate_gain", setup, ens, executor=base_executor, key={"nonlinearity": nl}))
+        def replay(ctx, model, clause, nl=nl, expect=expect, with_param=with_param):
+            import sys
+            import synapgrad.nn  # noqa: F401
+            init = sys.modules["synapgrad.nn.init"]
+            pv = None
+            if with_param:
+                from ..pyvc.harness import model_value
+                pv = float(model_value(model, z3.Real("param")))
+            got = init.calculate_gain(nl, pv)
+            return {"call": "calculate_gain(%r, %r)" % (nl, pv), "actual": float(got), "expected": float(expect), "reproduced": abs(float(got) - float(expect)) > 1e-12,
+                    "native_satisfies_contract": abs(float(got) - float(expect)) <= 1e-12}
+        ts.append(Target(NAME + "calculate_gain[%s%s]" % (nl, ", param given" if with_param else ""), INIT, "calculate_gain", setup, ens, replay=replay, executor=base_executor,
+                         key={"nonlinearity": nl, "param_given": with_param}))
     for kind in ("real", "int", "none", "bool", "str"):
         def setup(ex, kind=kind):
             s = State()
